@@ -96,6 +96,12 @@ M = [
   "\t\tcase RealTimeMsg:\n\t\t\treturn t <= reservedRealTimeMsg14", "\t\tcase RealTimeMsg:\n\t\t\treturn t <= NoteOnMsg"),
  ("c05-vlq-eof-is-clean-end", "C05,C10", "internal/utils/utils.go",
   "\tif num == 0 && !first {\n\t\treturn result, ErrUnexpectedEOF\n\t}", "\tif num == 0 && !first {\n\t\treturn result, io.EOF\n\t}"),
+ ("sweep-reader-tick-counter-not-reset-per-track", "C11", "smf/reader.go",
+  "\t\t\tr.Tracks[tr].Close(r.deltatime)\n\t\t\tabsTicks = 0\n", "\t\t\tr.Tracks[tr].Close(r.deltatime)\n"),
+ ("sweep-smf-isoneof-always-false", "C08", "smf/message.go",
+  "func (m Message) IsOneOf(checkers ...midi.Type) bool {\n\tfor _, checker := range checkers {\n\t\tif m.Is(checker) {\n\t\t\treturn true", "func (m Message) IsOneOf(checkers ...midi.Type) bool {\n\tfor _, checker := range checkers {\n\t\tif m.Is(checker) {\n\t\t\treturn false"),
+ ("sweep-readuint32-third-byte-shift", "C02", "internal/utils/utils.go",
+  "\tval |= uint32(b[1]) << 16\n\tval |= uint32(b[0]) << 24", "\tval |= uint32(b[1]) << 17\n\tval |= uint32(b[0]) << 24"),
 ]
 out = os.path.join(os.path.dirname(os.path.abspath(__file__)), "mutants")
 os.makedirs(out, exist_ok=True)
